@@ -61,7 +61,7 @@ def main():
     a = ap.parse_args()
     patches = sorted(glob.glob(os.path.join(VERIF, 'selftest', 'mutants', '*.patch')))
     if a.only:
-        patches = [p for p in patches if a.only in p]
+        patches = [p for p in patches if any(o in p for o in a.only.split(','))]
     allres, missed = [], 0
     for p in patches:
         r = run_one(p, a)
